@@ -42,7 +42,7 @@ CHECKS.update({
  "C06": ("flatten", "exploration", "runtime monitor: walk of the output after RemoveUnused (decoded targets vs decoded definition keys), bisimulation of operations, loop-iteration hook H1",
          "After every successful Flatten with RemoveUnused: shared sections empty, every definition used, nothing dangling, operations unchanged, removal loop within its logical budget; name classes needing pointer/URL escaping are boosted.", "7/C06"),
  "C07": ("flatten", "exploration", "runtime monitor: byte comparison of outputs across repeated fresh runs (map-iteration orders) x key-order permutations of the input files (map insertion histories)",
-         "Each bundle/option set is flattened P x R times (quick 3x4 under three representative option sets, thorough 6x8 under all) from permuted JSON texts; any differing byte or success/failure flip is a violation; evidence counts cases where map orders demonstrably varied.", "7/C07"),
+         "Each bundle/option set is flattened P x R times (quick 3x4 under three representative option sets, thorough 5x6 under all) from permuted JSON texts; any differing byte or success/failure flip is a violation; evidence counts cases where map orders demonstrably varied.", "7/C07"),
  "C08": ("flatten", "exploration", "runtime monitor: second Flatten of every output (reloaded from bytes, and on the same object with the same analyzer) compared byte for byte",
          "Idempotence is observed on every successful Minimal/full Flatten of the W workload in both re-entry variants.", "7/C08"),
  "C10": ("flatten", "exploration", "runtime monitor: every public getter of the Spec passed to Flatten compared with a fresh analysis of the output over the full argument domain; last mutating phase from hook H2",
